@@ -47,7 +47,10 @@ SEARCH_N = 60
 SHARD = 20
 DRIVER_TIMEOUT = 1500
 COQ_FILES = ["theories/C12/Props.v", "theories/C12/Link.v"]
-RULE = ("round 4 adds: construction options node/cluster x pass x tls (New(addr, options...) and Config.NewRedis) against "
+RULE = ("round 5 adds: breaker phases against peers that accept, read the request and hang up (bare io.EOF) / reset / never answer "
+        "(30 calls cycling over 16 command kinds, real breaker), per-command connection-failure runs (every guarded method twice, "
+        "recording breaker), count streams (populated hash/set/zset/keys, calls naming 0-3 existing members at once; adds vs "
+        "updates); round 4 adds: construction options node/cluster x pass x tls (New(addr, options...) and Config.NewRedis) against "
         "servers that enforce the password / TLS, with the raw twin configured with the same arguments, incl. misconfigured "
         "pairs; kv shards with per-shard type/pass/tls; blocking-node histories (create -> BLPop family -> close -> ordinary "
         "commands on the same *Redis, a second *Redis of the address and the still-open node); per-command runs of 30 "
@@ -515,6 +518,82 @@ def _runs(rng):
     return {"kind": "runs", "n": 30, "ops": ops}
 
 
+# ---- round 5: count-valued replies with several hits; connection failures of particular shapes ----
+def _counts(rng, kv):
+    """commands whose reply is a COUNT (passed through, or turned into a bool): populated containers, then calls
+    naming 0, 1, 2 or 3 existing members/keys at once (and updates vs additions for the sorted-set adds)"""
+    tbl = KV_OPS if kv else REDIS_OPS
+    ms = ["a", "b", "c", "d", "e", "f"]
+    ops = []
+    put = lambda m, a: ops.append({"m": m, "form": rng.choice(["ctx", "plain"]), "a": a}) if m in tbl else None
+    hit = lambda k: rng.sample(ms, k) + rng.sample(["x1", "x2", "x3"], rng.randint(0, 2))   # k existing + some absent
+    for rnd in range(2):
+        h, t, z, p = rng.choice(POOL["hash"]), rng.choice(POOL["set"]), rng.choice(POOL["zset"]), rng.choice(POOL["hll"])
+        put("HMSetCtx", [h, [[m, rng.choice(VALS)] for m in ms]])
+        put("SAddCtx", [t, ms])
+        put("ZAddsCtx", [z, [[m, i] for i, m in enumerate(ms)]])
+        for k in POOL["str"]:
+            put("SetCtx", [k, rng.choice(VALS)])
+        put("PFAddCtx", [p, ms[:3]])
+        put("RPushCtx", [rng.choice(POOL["list"]), [rng.choice(["a", "b"]) for _ in range(6)]])
+        calls = []
+        for k in (0, 1, 2, 3):
+            if kv:
+                calls.append(("HDelCtx", [h, (hit(k) or ["x1"])[0]]))
+            else:
+                calls.append(("HDelCtx", [h, hit(k) or ["x1"]]))
+            calls.append(("SRemCtx", [t, hit(k) or ["x1"]]))
+            calls.append(("ZRemCtx", [z, hit(k) or ["x1"]]))
+            calls.append(("SAddCtx", [t, hit(k) or ["x1"]]))
+            calls.append(("PFAddCtx", [p, hit(k) or ["a"]]))
+            calls.append(("DelCtx", [rng.sample(POOL["str"], k) + rng.sample(["nokey", "nokey2"], rng.randint(0 if k else 1, 2))]))
+            calls.append(("ZAddsCtx", [z, [[m, rng.choice(INTS)] for m in (hit(k) or ["x1"])]]))
+            calls.append(("MGetCtx", [rng.sample(POOL["str"], k) + ["nokey"]]))
+            calls.append(("HMGetCtx", [h, hit(k) or ["x1"]]))
+        calls += [("ZAddCtx", [z, 7, rng.choice(ms)]), ("ZAddCtx", [z, 7, "fresh%d" % rnd]), ("ZAddFloatCtx", [z, 2.5, rng.choice(ms)]),
+                  ("ZAddFloatCtx", [z, 2.5, "ffresh%d" % rnd]), ("ExistsCtx", [rng.choice(POOL["str"])]), ("ExistsCtx", ["nokey"]),
+                  ("LRemCtx", [rng.choice(POOL["list"]), rng.choice([0, 2, -2]), "a"]), ("ZRemRangeByRankCtx", [z, 0, 1]),
+                  ("ZRemRangeByScoreCtx", [z, 0, 2]), ("ZCountCtx", [z, 0, 100]), ("SCardCtx", [t]), ("HLenCtx", [h]), ("ZCardCtx", [z]),
+                  ("SUnionStoreCtx", [rng.choice(DEST), POOL["set"][:2]]), ("SInterStoreCtx", [rng.choice(DEST), [t, t]]),
+                  ("SDiffStoreCtx", [rng.choice(DEST), [t, "t9"]]), ("LPushCtx", [rng.choice(POOL["list"]), ["p", "q", "r"]]),
+                  ("RPushCtx", [rng.choice(POOL["list"]), ["p", "q"]]), ("PFCountCtx", [p]), ("LLenCtx", [rng.choice(POOL["list"])]),
+                  ("BitCountCtx", [rng.choice(POOL["str"]), 0, -1]), ("GetBitCtx", [rng.choice(POOL["str"]), 1])]
+        rng.shuffle(calls)
+        for m, a in calls:
+            put(m, a)
+    if kv:
+        return {"kind": "kv", "seed": rng.randrange(1 << 16), "weights": [100, 50, 100], "ops": ops, "counts": True}
+    return {"kind": "diff", "n": 1, "seed": rng.randrange(1 << 16), "ops": ops, "counts": True}
+
+
+GUARDED = [m for m in sorted(REDIS_OPS) if m not in UNGUARDED and m != "PingCtx"]   # PingCtx swallows every error by design
+FAIL_CYCLE = ["GetCtx", "SetCtx", "HSetCtx", "RPopCtx", "LPushCtx", "SAddCtx", "ZAddCtx", "IncrCtx", "EvalCtx", "PipelinedCtx",
+              "MGetCtx", "DelCtx", "ExpireCtx", "HGetAllCtx", "ZRangeWithScoresCtx", "SetNXCtx"]
+
+
+def _breaker(rng):
+    """real breaker: absent keys, cancelled contexts, a dead server -- and peers that accept the connection, read the
+    request and then hang up (bare io.EOF), reset, or never answer, over a cycle of command kinds"""
+    return {"kind": "breaker", "n": 30, "ops": [{"m": m, "form": "ctx", "a": REDIS_OPS[m](rng)} for m in FAIL_CYCLE]}
+
+
+
+def _connfail(rng, mode, sample=None):
+    """every guarded command (or a sample) twice against a peer failing in `mode`; the breaker only records"""
+    ms = GUARDED if sample is None else sorted(rng.sample(GUARDED, sample))
+    ops = [{"m": m, "form": "ctx", "a": REDIS_OPS[m](rng)} for m in ms]
+    for op in ops:
+        if op["m"].endswith("AndLimitCtx"):
+            op["a"][4] = max(1, op["a"][4])      # size <= 0 is answered without a round trip (documented guard)
+    return {"kind": "connfail", "mode": mode, "n": 2, "ops": ops}
+
+
+def _fixed_round5(rng, tier):
+    full = tier not in ("quick",)
+    return [_counts(rng, False), _counts(rng, True), _connfail(rng, "eof"),
+            _connfail(rng, "reset", None if full else 30), _connfail(rng, "hang", None if full else 12)]
+
+
 def _fixed_round4(rng):
     """pass x {node, cluster} (and a TLS combination) are in every run, for the wrapper and for the sharded store"""
     out = [_diff(rng, _opts(rng, False, True, False), 30, blocking=True), _diff(rng, _opts(rng, True, True, False), 30, blocking=True),
@@ -531,7 +610,7 @@ def generate(rng, tier, n):
     nb = 1 if tier in ("quick", "search") else max(2, n // 200)
     fixed = []
     for _ in range(nb):
-        fixed += [{"kind": "breaker", "n": 30}, _dead(rng, False), _dead(rng, True)] + [_sha(rng) for _ in range(4)] + _fixed_round4(rng)
+        fixed += [_breaker(rng), _dead(rng, False), _dead(rng, True)] + [_sha(rng) for _ in range(4)] + _fixed_round4(rng) + _fixed_round5(rng, tier)
     cases.extend(fixed[:n])
     while len(cases) < n:
         x = rng.random()
@@ -555,7 +634,8 @@ def search(rng, problems):
     for m in sorted(KV_OPS):
         cases.append({"kind": "kv", "seed": rng.randrange(1 << 16), "weights": [100, 50, 100],
                       "ops": _history(rng, KV_OPS, 22, focus=m)})
-    cases.append({"kind": "breaker", "n": 30})
+    cases.append(_breaker(rng))
+    cases += _fixed_round5(rng, "search")
     cases += [_dead(rng, False), _dead(rng, True), _sha(rng), _sha(rng)]
     cases += [_multi(rng) for _ in range(6)]
     cases += [_with_restarts(rng, {"kind": "kv", "seed": rng.randrange(1 << 16), "weights": [100, 100, 50],
@@ -706,7 +786,11 @@ def encode(case, obs):
                 "\"\"%string] [] [] [] " + TAIL0)
     if case["kind"] == "breaker":
         ph = [clist([cpair(enc_err(e), cnat(TOLD[t])) for e, t in obs[k]]) for k in ("nil", "canceled", "dead")]
+        ph += [clist([cpair(enc_err(x[0]), cnat(TOLD[x[1]])) for x in obs["fails"][k]]) for k in ("eof", "reset", "hang") if k in obs.get("fails", {})]
         return "mkcase 2%%nat [] [] [] %s %s" % (clist(ph), TAIL0)
+    if case["kind"] == "connfail":
+        runs = [clist([cpair(enc_err(e), cnat(TOLD[t])) for e, t in run]) for run in obs["runs"]]
+        return "mkcase 5%%nat [] [] [] %s %s" % (clist(runs), TAIL0)
     if case["kind"] == "runs":
         runs = [clist([cpair(enc_err(e), cnat(TOLD[t])) for e, t in run]) for run in obs["runs"]]
         return "mkcase 4%%nat [] [] [] %s %s" % (clist(runs), TAIL0)
@@ -744,7 +828,10 @@ def _executed(obs):
 
 def nontrivial(case, obs):
     if case["kind"] == "breaker":
-        return any(e == "Unavailable" for e, _ in obs.get("dead", []))
+        return any(e == "Unavailable" for e, _ in obs.get("dead", [])) and all(
+            any(x[0] == "Unavailable" for x in ph) for ph in obs.get("fails", {"-": [["Unavailable"]]}).values())
+    if case["kind"] == "connfail":
+        return all(e.startswith("Other:") for run in obs.get("runs", []) for e, _ in run)
     if case["kind"] == "runs":
         return any(e == "Nil" for run in obs.get("runs", []) for e, _ in run) and any(e == "Canceled" for run in obs.get("runs", []) for e, _ in run)
     if case["kind"] == "sha":
@@ -760,7 +847,12 @@ def bucket(case, obs):
     out = ["kind:" + case["kind"]]
     if case["kind"] == "breaker":
         out.append("breaker:rejected=%d" % sum(1 for e, _ in obs.get("dead", []) if e == "Unavailable"))
+        for k, ph in obs.get("fails", {}).items():
+            out.append("breaker:%s:rejected=%d" % (k, sum(1 for x in ph if x[0] == "Unavailable")))
+            out += ["breaker:%s:%s" % (k, x[2]) for x in ph if x[0] != "Unavailable"]
         return out
+    if case["kind"] == "connfail":
+        return out + ["connfail:%s:%s" % (case["mode"], op["m"]) for op in case["ops"]]
     if case["kind"] == "sha":
         return out + ["sha:" + op["m"] for op in case["ops"]]
     if case["kind"] == "runs":
@@ -788,6 +880,10 @@ def bucket(case, obs):
         out.append(("kv:" if case["kind"] == "kv" else "m:") + op["m"])
         out.append("form:" + op["form"])
         out.append("raw-err:" + st["r"]["e"].split(":")[0])
+        if isinstance(st["r"]["v"], dict) and st["r"]["v"].get("z", 0) >= 2 and st["w"]["v"].get("b") is True:
+            out.append("count>=2->true:" + op["m"])
+        elif isinstance(st["r"]["v"], dict) and st["r"]["v"].get("z", 0) >= 2:
+            out.append("count>=2:" + op["m"])
         if case["kind"] == "diff":
             out.append("brk:" + st["brk"])
     return out
@@ -803,7 +899,12 @@ def explain(case, obs):
                 "registered by SetSha for exactly that text (or answered for a text never registered)")
     if case["kind"] == "breaker":
         return ("breaker phases contradict C12.Exec.spec_ok: a redis.Nil / context.Canceled call was rejected or counted as a "
-                "failure, or connection-level failures were not counted / never led to ErrServiceUnavailable")
+                "failure, or connection-level failures (refused; accepted then bare io.EOF / reset / no answer) were not counted "
+                "/ never led to ErrServiceUnavailable")
+    if case["kind"] == "connfail":
+        return ("per-command connection-failure runs contradict C12.Exec.spec_ok: against a peer that accepts the connection and "
+                "then hangs up / resets / never answers (mode %s) some command did not end in a connection-level error reported "
+                "to the breaker as a failure" % case.get("mode"))
     for op, st in zip(case["ops"], obs.get("steps", [])):
         if "skip" in st:
             continue
